@@ -89,6 +89,8 @@ def run(ctx):
     # the same through GDB mode (`wl ...` commands typed while the program is halted, messages arriving as closures)
     from props import gdbbase
     gdbbase.gdb_batch(ctx, rep, relevant('C12'), ctx.pick(40, 400), 1000357)
+    # ... and as a real process in file mode
+    sessbase.process_batch(ctx, rep, ['info', 'error'], ctx.pick(12, 120), 1000423)
     return rep
 
 
